@@ -144,7 +144,7 @@ class Text(JupyterMixin):
         self.end = end
         self.tab_size = tab_size
         self._spans: List[Span] = spans or []
-        self._length: int = len(text)
+        self._length: int = len(self._text[0])
 
     def __len__(self) -> int:
         return self._length
